@@ -388,6 +388,15 @@ func locCps() [][]int {
 }
 
 var handFormatSchemas = []string{
+	// no query root although a type named Query exists; roots in every subset
+	`schema { mutation: Mutation } type Query { a: Int } type Mutation { m: Int }`,
+	`schema { subscription: S } type S { s: Int } type Query { q: Int } type Mutation { m: Int }`,
+	`schema { mutation: M subscription: Subscription } type M { m: Int } type Subscription { s: Int }`,
+	`schema { query: Mutation mutation: Query } type Query { a: Int } type Mutation { m: Int }`,
+	// the user's own definition of a directive the prelude also defines (the loader keeps and uses it)
+	`directive @deprecated(reason: String = "gone", since: String) on FIELD_DEFINITION | ENUM_VALUE type Query { a: Int @deprecated(since: "v2") }`,
+	`directive @include(if: Boolean!, unless: Boolean) on FIELD | FRAGMENT_SPREAD | INLINE_FRAGMENT type Query { a: Int }`,
+	`"mine" directive @specifiedBy(url: String!, note: String) on SCALAR scalar Date @specifiedBy(url: "u", note: "n") type Query { d: Date }`,
 	`schema { query: Query } type Query { a: Int } type Mutation { m: Int }`,
 	`schema { query: Q mutation: Mutation } type Q { a: Int } type Mutation { m: Int }`,
 	`schema { query: Q } type Q { a: Int } type Query { notroot: Int } type Subscription { s: Int }`,
